@@ -92,13 +92,15 @@ CHECKS = {
         "category": "translation_validation",
     },
     "C01": {
-        "text": "Premises of the block-wise round-trip induction, discharged for every path class (prefix, generic loop iteration, residues 0..3, refusal) of the six AEAD functions and the nine "
-                "setup/absorb/generate_tag helpers by symbolic path summaries in the GF(2) term domain (permutation uninterpreted, fresh symbols at the loop head, no unrolling): the only length store is "
-                "mlen+8 / clen-8; encrypt and decrypt unpack the key and call setup/absorb identically; each block/tail equals the reference block transformer bit for bit (so a 0x7F mask, a sign "
-                "extension, a wrong frame constant, round count or length injection is refuted); the reference decrypt block provably inverts the reference encrypt block and leaves the same state; "
-                "cursors and remaining length advance in lock-step, exactly [0,r) is read and written, the tag sits at cursor+r, and every input byte is loaded before the same output offset is stored.",
-        "note": "Induction itself is the argument in DESIGN.md. N0 IR of clang 14; alignment/endianness independence is C06's R-BYTEWISE; permutation purity is C05/C19.",
-        "technique": "symbolic path summaries in a GF(2) bit-provenance term domain vs a reference model, per path class; affine cursor tracking",
+        "text": "Premises of the block-wise round-trip induction, discharged RELATIONALLY (encrypt vs decrypt of the same key size; nothing is compared with the TinyJAMBU specification here - that is "
+                "C02) on symbolic path summaries in the GF(2) term domain (permutation and helpers uninterpreted, fresh symbols at the loop head, no unrolling), for every path class (prefix, generic "
+                "loop iteration, residues 0..3, refusal): both directions unpack the key to the same words and make the same setup/absorb calls; per class they run the same permutation call on the "
+                "same input state; substituting encrypt's output-byte terms for decrypt's input bytes, decrypt's output equals the plaintext bit for bit and its state equals encrypt's (a 0x7F mask, "
+                "a sign extension, a one-sided constant is refuted); the only length store is mlen+8 / clen-8; cursors and remaining length advance in lock-step, exactly [0,r) is read and written, "
+                "the tag sits at cursor+r and survives, every input byte is loaded before the same output offset is stored; decrypt returns check_tag's verdict on the tag just generated.",
+        "note": "Induction itself is the argument in DESIGN.md. A deviation from the specification made consistently in both directions keeps the round trip and is deliberately not reported by this "
+                "check. N0 IR of clang 14; alignment/endianness independence is C06's R-BYTEWISE; purity of helpers/permutation is C05/C19.",
+        "technique": "relational symbolic path summaries (encrypt vs decrypt) in a GF(2) bit-provenance term domain with term substitution, per path class; affine cursor tracking",
     },
     "C02": {
         "text": "Construction conformance on every path: the same per-path-class summaries compared with the TinyJAMBU v2 reference (frame bits 0x10/0x30/0x50/0x70, 640-step and 1024/1152/1280-step "
@@ -109,12 +111,13 @@ CHECKS = {
         "technique": "symbolic path summaries in a GF(2) term domain vs a reference model of the mode; permutation by abstract interpretation of one loop iteration",
     },
     "C08": {
-        "text": "As C01/C03 for the six SIV functions: pass 1 (setup 0x90, absorb AD 0x30/5, absorb plaintext 0x50/keyed, tag at c+mlen), second-pass nonce = npub[0..3] || tag with setup 0xB0 "
-                "(decrypt: the bytes at c+clen-8, copied before any plaintext store), pass 2 per path class (frame 0xD0, output = input xor word 2 restricted to r bytes, nothing absorbed), "
-                "encrypt/decrypt duality of the reference, lock-step/coverage/tag position/load-before-store, decrypt's MAC recomputation over the recovered plaintext and C03's guard / must-pass / "
-                "argument rules on the three SIV decrypt functions.",
-        "note": "Values not computed; tag sensitivity is a cipher property; check_tag itself is decided under C03/C04.",
-        "technique": "symbolic path summaries in a GF(2) term domain vs a reference model; finite-class execution for the length guard",
+        "text": "As C01/C03 for the six SIV functions, RELATIONALLY (conformance with the documented construction is C09): decrypt's second-pass setup equals encrypt's with the 8 bytes at c+clen-8 in "
+                "place of the generated tag (same callee, domain, key, nonce composition; encrypt stores the tag at c+mlen); per path class of the keystream pass both run the same permutation call "
+                "and decrypt applied to encrypt's output terms returns the plaintext bit for bit; decrypt's authentication pass repeats encrypt's first pass call for call over (npub, ad, recovered "
+                "plaintext, clen-8); lock-step/coverage/tag position/load-before-store (the tag bytes are copied before the first plaintext store), and C03's guard / must-pass / argument rules on "
+                "the three SIV decrypt functions.",
+        "note": "Values not computed; tag sensitivity is a cipher property; check_tag itself is decided under C03/C04. Consistent deviations from the construction are C09's.",
+        "technique": "relational symbolic path summaries (encrypt vs decrypt) in a GF(2) term domain; finite-class execution for the length guard",
     },
     "C09": {
         "text": "Construction conformance of the six SIV functions with the documented two-pass construction (constants 0x90/0xB0/0xD0, pass 2 never absorbs, nonce' composition) at bit level on "
